@@ -516,6 +516,14 @@ def handover_failures(res):
             # sits on the same line within three columns of the position that was passed.
             # strengthening round 2: ... or in the same column (within three) of ANOTHER line: the line of a hand-over is checked
             # as well as its column (a body whose brace is on a later line than its header handed over with the header's line)
+            # Not a wrong position: the text at the passed position IS the handed text up to white space
+            # (a cleaned-up bracket such as `[ta<CR>g=tag2]` re-tokenised as `tag=tag2`), even if the very
+            # same text also occurs in the same column of a neighbouring line.
+            if o is not None:
+                squeeze = lambda t: re.sub(r"\s+", "", t)
+                if squeeze(fs[o:o + 2 * len(call["string"]) + 16]).startswith(squeeze(call["string"])):
+                    skipped += 1
+                    continue
             occ = [pos_of(fs, m.start()) + (m.start(),) for m in re.finditer(re.escape(call["string"]), fs)]
             near = [o_ for l_, c_, o_ in occ if abs(c_ - call["col"]) <= 3 and (l_ == call["line"] or len(call["string"].strip()) >= 4)]
             if near:
